@@ -89,7 +89,7 @@ fn plugin_path() -> std::path::PathBuf {
 
 pub fn record_bot(opts: &Opts) -> i32 {
     use crate::engineplay::CountingTimeout;
-    let roots = read_json_file(&opts.str("roots", "/verif/spec/roots.json"));
+    let roots = read_json_file(&opts.str("roots", &crate::util::default_roots()));
     let seed = opts.num("seed", 1);
     let shard = opts.num("shard", 0);
     let budget = opts.num("events", 3000);
